@@ -18,7 +18,8 @@ from modelx.core.errors import DeletedObjectError
 # ---------------------------------------------------------------------------------------------- spec
 
 def S_(bases=(), formula=None, cells=None, refs=None, spaces=None):
-    """space spec.  formula: None | dict(params="i, j=2", base=None|path, refs=None|{name: expr}) | raw str"""
+    """space spec.  formula: None | dict(params="i, j=2", base=None|path, refs=None|{name: expr}) | raw str
+    (optional keys with a base: base_key="bases" -> spelled {'bases': [...]}; base_expr=text naming the base)"""
     return {"bases": [tuple(b) for b in bases], "formula": formula,
             "cells": dict(cells or {}), "refs": dict(refs or {}), "spaces": dict(spaces or {})}
 
@@ -40,10 +41,13 @@ def formula_src(f):
         return f
     parts = []
     if f.get("base") is not None:
+        # the selected space is named by its path from the model unless "base_expr" gives another spelling
+        # (e.g. the name of a ref bound to it); "base" stays the definition-level meaning either way
+        expr = f.get("base_expr") or "_model.%s" % ".".join(f["base"])
         if f.get("base_key") == "bases":
-            parts.append("'bases': [_model.%s]" % ".".join(f["base"]))
+            parts.append("'bases': [%s]" % expr)
         else:
-            parts.append("'base': _model.%s" % ".".join(f["base"]))
+            parts.append("'base': %s" % expr)
     if f.get("refs") is not None:
         parts.append("'refs': {%s}" % ", ".join("%r: %s" % (k, e) for k, e in f["refs"].items()))
     body = "{%s}" % ", ".join(parts) if parts else "None"
@@ -708,6 +712,8 @@ def run_jobs(res, jobs, worker, nproc=None, chunksize=1):
                 res.count(r["key"], r.get("nontrivial", True))
                 if r.get("fail"):
                     res.fail(**r["fail"])
+                for f in r.get("more_fails", ()):        # further symptoms of the same case (other tag sets)
+                    res.fail(**f)
                 if r.get("sample") is not None:
                     res.sample(r["sample"])
                 for mname, ok in r.get("monitors", ()):
